@@ -20,8 +20,7 @@
   parameters.  Two forms are given: the straight-line function `mapToCurveSimpleSwu`, and the
   relation `IsSswu`, which does not mention `sqrt` ("`y` is *a* square root with the sign of `u`").
   `Lemmas/SwuAux.lean` proves that the function satisfies the relation for every correct `sqrt`, and
-  that the relation determines `(x, y)`.  Also: the §3 skeleton `hash_to_curve` (`count = 2`), and
-  `sgn0` for a prime field (§4.1, `m = 1`).
+  that the relation determines `(x, y)`.  Also: `sgn0` for a prime field (§4.1, `m = 1`).
 
   Nothing here refers to the executable model of py_ecc.
 -/
@@ -73,19 +72,5 @@ end
 
 /-- RFC 9380 §4.1 `sgn0` for a prime field (`m = 1`): parity of the canonical representative -/
 def sgn0Fp {p : ℕ} (z : ZMod p) : ℕ := Sgn0.sgn0_m_eq_1 z.val
-
-/-- RFC 9380 §3 `hash_to_curve`:
-      1. u = hash_to_field(msg, 2)   2. Q0 = map_to_curve(u[0])   3. Q1 = map_to_curve(u[1])
-      4. R = Q0 + Q1                 5. P = clear_cofactor(R)      6. return P
-    over abstract point/field-element types; `none` = abort of `hash_to_field`, or a `map_to_curve`
-    that fails. -/
-def hashToCurve {Pt Fe : Type} (hashToField2 : Option (Fe × Fe)) (mapToCurve : Fe → Option Pt)
-    (add : Pt → Pt → Pt) (clearCofactor : Pt → Pt) : Option Pt :=
-  match hashToField2 with
-  | none => none
-  | some (u0, u1) =>
-    match mapToCurve u0, mapToCurve u1 with
-    | some q0, some q1 => some (clearCofactor (add q0 q1))
-    | _, _ => none
 
 end PyEcc.Spec
